@@ -341,6 +341,10 @@ def run_cases(rng, cases):
         recs.append({"kind": kind, "tree": tree, "lay": lay, "tokens": toks, "text": text, "src": src,
                      "depth": case[3] if len(case) > 3 else (X.depth_of(tree) if tree is not None else 0)})
     outs = impl.pmap("assemble", jobs, chunksize=64)
+    # a watchdog hit on a starved machine is not an observation: such cases are run again, alone, with a long limit
+    for i, o in enumerate(outs):
+        if o["outcome"] in ("hang", "harness-error"):
+            outs[i] = impl.assemble(*jobs[i][0], watchdog=120)
     for r, o in zip(recs, outs):
         r["obs"] = observe(r["lay"], o)
         r["raw"] = {"outcome": o["outcome"], "code": o.get("code"), "errors": sorted({d[1] for d in o["diags"] if d[0] != "warning"}), "crash": o.get("crash")}
